@@ -70,8 +70,10 @@ prop("C08", "other", _GENERIC + "Proved: the budget invariant of reserve/release
      "output grew within max_size and nothing old moved), the record sets being stubs under an assumed append-only to_wire "
      "interface (proved for names: Name.to_wire#file). Message.to_wire control, reserve exactness and padding are bounded.",
      assumptions=["A-towire: RRset/Rdataset.to_wire only appends to the buffer and only enters offsets of what it appended into the compression table"])
-prop("C09", "other", _GENERIC + "Proved: the CNAME/other-data classification rule (NodeKind.classify) against the RFC rule. The field "
-     "grammar of the reader and emitter, directives and $GENERATE are decided by the bounded stand-in.")
+prop("C09", "other", _GENERIC + "Proved: the CNAME/other-data classification rule (NodeKind.classify) against the RFC rule; the TTL field "
+     "parser dns.ttl.from_text (any text gives a TTL in 0..2**32-1 or BadTTL, nothing else escapes; loop invariant over the real "
+     "per-character loop). The field grammar of the reader and emitter, directives and $GENERATE are decided by the bounded stand-in.",
+     assumptions=["A-unicode: str.isdecimal / int() / str.lower on non-ASCII characters are uninterpreted (decimal digits have a value 0..9)"])
 prop("C10", "other", _GENERIC + "Proved: RFC 1982 Serial arithmetic and comparison contracts and the increment lemma; the transaction "
      "life cycle (_check_ended, _end, commit, rollback, __exit__: ended transactions refuse use, a clean exit commits, an exit through "
      "an exception rolls back and is never swallowed, the ended flag is set whatever the zone's hook does) against an assumed contract "
